@@ -38,6 +38,10 @@ def conc_case(draw, brokers):
             # occupies its slot until it has
             j["timeout"] = 1
             j["attempts"][0].update({"sleep": 0.0, "extra": 5.0, "cleanup": draw(st.sampled_from([0.0, 0.25, 0.8]))})
+        if kind == "ret" and draw(st.integers(0, 7)) == 0:
+            # a time-to-live that may run out while the message waits (in the queue: dead-lettered, never executed; after it was
+            # fetched, while waiting for a slot: whatever the worker does with it, consumption must go on)
+            j["ttl"] = draw(st.sampled_from([1, 2, 3]))
         mode = draw(st.sampled_from(["before", "before", "burst", "after"])) if i > 0 else "before"
         if mode == "burst":
             j["enqueue_at"] = draw(st.one_of(GRID, st.integers(0, 6000).map(lambda ms: ms / 1000)))
@@ -59,8 +63,11 @@ def _settled(tr: scenario.Trace) -> bool:
     n = len(tr.case["jobs"])
     # (a message whose actor ended cancelled is left without a disposition: its fate is not this property's business)
     lost = {j["id"] for j in tr.case["jobs"] if j["attempts"][0]["k"] == "cancel"}
-    return len(tr.execs) >= n and all(e.end != "running" for e in tr.execs) and not any(
-        p.kind in ("waiting", "held") for i, v in tr.env.probe().items() if i not in lost for p in v)
+    pr = tr.env.probe()
+    expired = {j["id"] for j in tr.case["jobs"] if j.get("ttl") and [p.kind for p in pr.get(j["id"], [])] == ["dead"]}
+    done = {e.id for e in tr.execs} | expired
+    return len(done) >= n and all(e.end != "running" for e in tr.execs) and not any(
+        p.kind in ("waiting", "held") for i, v in pr.items() if i not in lost for p in v)
 
 
 def run(case: dict) -> Outcome:
@@ -83,7 +90,9 @@ def run(case: dict) -> Outcome:
     lat_sum = sum(case.get("lat", []))
     L = L_PICKUP[case["broker"]] + lat_sum
     if tr.horizon_hit:
-        missing = [j["id"] for j in case["jobs"] if j["id"] not in started and j["id"] in tr.enqueued]
+        # (a message whose time-to-live ran out before it was executed is dead-lettered, not executed: not a stall)
+        expired = {j["id"] for j in case["jobs"] if j.get("ttl") and [p.kind for p in tr.final.get(j["id"], [])] == ["dead"]}
+        missing = [j["id"] for j in case["jobs"] if j["id"] not in started and j["id"] in tr.enqueued and j["id"] not in expired]
         if missing:
             out.v("stalled", f"{len(missing)} of {n} jobs never started within the bound {case['horizon']}s "
                   f"(tasks_limit={tl}, sum of durations={sum(_dur(j) for j in case['jobs']):.2f}s): {missing[:6]}")
